@@ -366,6 +366,8 @@ H("conn_set_peer_params_native", ["C05", "C06", "C13", "C08"], "replay-only", "c
   [("mups", "u32")], 4, [], ["Connection::set_peer_params"], "native replay body of E2 query e2_set_peer_params")
 H("streams_received_ack_of_native", ["C05"], "replay-only", "connection::streams::received_ack_of_native",
   [("reset", "bool")], 4, [], ["StreamsState::received_ack_of"], "native replay body of E2 query e2_received_ack_of")
+H("streams_chunks_next_eos_native", ["C01", "C11"], "replay-only", "connection::streams::chunks_next_eos_native",
+  [("gap", "bool"), ("ordered", "bool")], 4, [], ["Chunks::next", "RecvStream::read", "StreamsState::received"], "native replay body of E2 query e2_chunks_next_eos")
 H("conn_peer_params_cid_auth_native", ["C14", "C04"], "replay-only", "connection::peer_params_cid_auth_native",
   [("server", "bool"), ("which", "u8")], 4, [], ["Connection::handle_peer_params"], "native replay body of E2 query e2_peer_params_cid_auth")
 
